@@ -67,7 +67,23 @@ pub fn recognise(html: &str) -> Result<(), String> {
     Ok(())
 }
 
+/// every named reference of the table whose expansion contains a markup delimiter (incl. multi-code-point ones)
+static DELIM_REFS: once_cell::sync::Lazy<Vec<&'static str>> = once_cell::sync::Lazy::new(|| {
+    entities::ENTITIES.iter().filter(|e| e.entity.ends_with(';') && e.characters.chars().any(|c| "<>\"&".contains(c))).map(|e| e.entity).collect()
+});
+
 fn hostile(rng: &mut Rng) -> String {
+    if rng.chance(1, 4) {
+        let r = *rng.pick(&DELIM_REFS);
+        let astral = *rng.pick(&["", "😀", "\u{10000}", "é"]);
+        return match rng.below(5) {
+            0 => format!("{astral}{r}script{r} {astral}<x>"),
+            1 => format!("[{r}]({r} \"{astral}{r}\")"),
+            2 => format!("![{astral}{r}](/u '{r}')"),
+            3 => format!("``` {r}\n{astral}{r}\n```"),
+            _ => format!("# {astral}{r}\n\n> {r}\n\n- *{r}* `{r}`"),
+        };
+    }
     let p = *rng.pick(&["\"><script>alert(1)</script>", "\" onmouseover=\"x", "<img src=x onerror=y>", "&lt;b&gt;", "&#60;b&#62;", "'\"><", "\\\"", "&quot;&#34;&#x22;", "<!--", "]]>", "\0<x>"]);
     match rng.below(9) {
         0 => format!("[a]({})", p),
